@@ -44,6 +44,92 @@ func runC17(c *Ctx) {
 	for s := 0; s < nScen; s++ {
 		c17Scenario(c, sh, s)
 	}
+	for s := 0; s < c.pick(2, 8); s++ {
+		c17WideFile(c, s)
+	}
+}
+
+// c17WideFile: files with hundreds of blocks, whose metadata JSON is far larger than any fixed-size read of the
+// file's tail: a flush over 300-500 partitions, a second one, a merge. Every file the MetaStore references must
+// parse back from its own bytes (ReadFileMetadata) to the metadata that was registered, block for block, and
+// hold every row. Judged on the Go side (a case of this size is not sent to Coq).
+func c17WideFile(c *Ctx, scen int) {
+	ctx := context.Background()
+	tc := c.tGenConfig()
+	tc.cfg.PartitionFunc = func(row map[string]any) string { p, _ := row["p"].(string); return p }
+	tc.cfg.MaxBufferedRows = 1 << 20
+	tc.cfg.MaxRowGroupRows = 1 << 20
+	tc.cfg.MaxRowGroupBytes = 1 << 30
+	nParts := 300 + c.intn(200)
+	w := c.tNewWorld(tc)
+	defer w.stop()
+	next := 0
+	flush := func() {
+		rows := make([]map[string]any, nParts)
+		for i := range rows {
+			rows[i] = map[string]any{"id": next, "p": fmt.Sprintf("part-%04d", i), "msg": fmt.Sprintf("wide w%d", next%7)}
+			w.rows[next] = rows[i]
+			next++
+		}
+		done := make(chan error, 1)
+		must(w.eng.IngestRows(ctx, rows, done))
+		must(w.eng.Flush(ctx))
+		must(<-done)
+	}
+	check := func(stage string) {
+		got := map[int]int{}
+		for _, f := range w.files() {
+			desc := map[string]any{"kind": "wide-file", "stage": stage, "blocks": len(f.meta.DataBlocks), "file_bytes": len(f.data)}
+			parsed, size, err := bs.ReadFileMetadata(bytes.NewReader(f.data))
+			if err != nil {
+				c.violation("c17-wide-footer", fmt.Sprintf("%s: a file with %d blocks (%d bytes) does not parse back with ReadFileMetadata: %v", stage, len(f.meta.DataBlocks), len(f.data), err), desc)
+				continue
+			}
+			if size != int64(len(f.data)) || len(parsed.DataBlocks) != len(f.meta.DataBlocks) {
+				c.violation("c17-wide-footer", fmt.Sprintf("%s: parsed footer reports size %d / %d blocks, the file has %d bytes and was registered with %d blocks", stage, size, len(parsed.DataBlocks), len(f.data), len(f.meta.DataBlocks)), desc)
+				continue
+			}
+			for i := range parsed.DataBlocks {
+				a, b := parsed.DataBlocks[i], f.meta.DataBlocks[i]
+				if a.RowDataOffset != b.RowDataOffset || a.RowDataSize != b.RowDataSize || a.BloomFilterOffset != b.BloomFilterOffset || a.BloomFilterSize != b.BloomFilterSize ||
+					a.Rows != b.Rows || a.PartitionID != b.PartitionID || a.UncompressedSize != b.UncompressedSize || a.RowDataHash != b.RowDataHash {
+					c.violation("c17-wide-footer", fmt.Sprintf("%s: block %d parsed from the footer differs from the registered metadata", stage, i), desc)
+					break
+				}
+				rd, err := bs.ReadDataBlockRowData(bytes.NewReader(f.data), &a)
+				if err != nil {
+					c.violation("c17-wide-footer", fmt.Sprintf("%s: block %d does not read back: %v", stage, i, err), desc)
+					break
+				}
+				sc := bs.NewBlockRowScanner(rd)
+				for {
+					rb, ok, err := sc.Next()
+					if err != nil || !ok {
+						break
+					}
+					if id, ok := tRowID(rb); ok {
+						got[id]++
+					}
+				}
+			}
+			c.count([]string{"C17"}, fmt.Sprintf("wide-%d-%s-%s", scen, stage, f.pointer), true, desc)
+			c.dist("c17_wide_file", fmt.Sprintf("%s blocks>=%d00", stage, len(f.meta.DataBlocks)/100))
+		}
+		for id := 0; id < next; id++ {
+			if got[id] != 1 {
+				c.violation("c17-wide-rows", fmt.Sprintf("%s: row %d is held %d times by the files the MetaStore references", stage, id, got[id]), map[string]any{"kind": "wide-file", "stage": stage})
+				break
+			}
+		}
+	}
+	flush()
+	check("flush")
+	flush()
+	if _, err := w.eng.Merge(ctx); err != nil {
+		c.violation("c17-merge-error", "Merge failed on healthy stores (wide files): "+err.Error(), map[string]any{"scenario": scen})
+		return
+	}
+	check("merge")
 }
 
 func c17Scenario(c *Ctx, sh *shard, scen int) {
